@@ -6,7 +6,8 @@ EXTENDS ApiEp, Json
 
 CONSTANTS MaxLen,    \* operations per emitted history / depth bound of the breadth-first search
           Emit,      \* print finished histories as JSON
-          Heavy      \* emitted histories may contain bodies above the 20 MB limit that are really sent
+          Heavy,     \* emitted histories may contain bodies above the 20 MB limit that are really sent
+          Dom        \* declaration domain of the breadth-first search (1, 2 or 3)
 
 VARIABLES st, hist, done
 vars == <<st, hist, done>>
@@ -100,13 +101,20 @@ AfterRace(s, ds, i) ==
          IN AfterRace(AfterReg(s, ds[i], r), ds, i + 1)
 
 \* ---------------------------------------------------------------- small domains (breadth-first search)
+\* Dom = 1: the small domain (searched to depth 2), Dom = 3: the same with all five function types,
+\* Dom = 2: a thinner one (searched to depth 3, where three endpoints, two of them with overlapping
+\* templates, are registered together)
 BfsDecls == {[p |-> p, fns |-> f, rd |-> pm[1], wr |-> pm[2], rm |-> "", wm |-> wm, mime |-> "", mod |-> md]
-             : p \in {1, 3, 6, PEmpty}, f \in {<<"action">>, <<"handler">>, <<"record">>, <<"action", "data">>},
-               pm \in {<<1, 1>>, <<1, 0>>, <<0, 0>>, <<5, 1>>, <<2, -1>>}, wm \in {"", "PUT", "GET"}, md \in {0, 1}}
+             : p \in {2, 3, 6, PEmpty},
+               f \in (CASE Dom = 1 -> {<<"action">>, <<"handler">>, <<"record">>, <<"action", "data">>}
+                        [] Dom = 2 -> {<<"data">>, <<"record">>, <<"struct">>, <<"action", "data">>}
+                        [] OTHER   -> {<<"action">>, <<"data">>, <<"struct">>, <<"record">>, <<"handler">>, <<>>, <<"action", "data">>}),
+               pm \in (IF Dom = 2 THEN {<<1, 1>>, <<1, 0>>, <<0, 0>>, <<5, 1>>} ELSE {<<1, 1>>, <<1, 0>>, <<0, 0>>, <<5, 1>>, <<2, -1>>}),
+               wm \in (IF Dom = 2 THEN {"", "GET"} ELSE {"", "PUT", "GET"}), md \in {0, 1}}
 BfsReqs == {[m |-> m, acrm |-> ac, segs |-> sg, accept |-> "", body |-> bd, beh |-> bh, code |-> 418,
              hdr |-> TRUE, ct |-> FALSE, tp |-> 0]
             : m \in {"GET", "HEAD", "POST", "DELETE", "OPTIONS", "PATCH"}, ac \in {"", "GET"},
-              sg \in {<<1>>, <<1, 2>>, <<3, 6, 4, 7>>, <<2>>}, bd \in {"none", "small", "overchunk"},
+              sg \in {<<1>>, <<1, 2>>, <<1, 6>>, <<3, 6, 4, 7>>}, bd \in {"none", "small", "overchunk"},
               bh \in {"val", "nil", "status", "err"}}
 BfsOps == {Op("reg", d, NullQ, FALSE, "", 0, <<>>) : d \in BfsDecls}
           \cup {Op("mod", NullD, NullQ, b, "", 0, <<>>) : b \in BOOLEAN}
